@@ -44,9 +44,14 @@ pub broadcast axiom fn ax_eq(a: f64, b: f64)
     ensures #[trigger] a.eq_spec(&b) == (!nan(a) && !nan(b) && rv(a) == rv(b));
 pub broadcast group a_real_cmp { ax_cmp_o, ax_cmp, ax_eq_o, ax_eq }
 
+// square root on the reals (A-REAL): rsqrt is the mathematical non-negative root
+pub uninterp spec fn rsqrt(x: real) -> real;
+pub broadcast axiom fn ax_rsqrt(x: real)
+    requires x >= 0real,
+    ensures #[trigger] rsqrt(x) >= 0real, rsqrt(x) * rsqrt(x) == x;
 pub assume_specification[ f64::sqrt ](a: f64) -> (r: f64)
     ensures
-        (!nan(a) && rv(a) >= 0real) ==> !nan(r) && rv(r) >= 0real && rv(r) * rv(r) == rv(a),
+        (!nan(a) && rv(a) >= 0real) ==> !nan(r) && rv(r) == rsqrt(rv(a)),
         nan(a) ==> nan(r);
 
 pub open spec fn rpow(x: real, k: int) -> real
